@@ -5,107 +5,6 @@
 import Nervus.Proofs.CrashMain
 namespace Nervus.Crash
 
-/-- the error-path steps of the k-th I/O action -/
-def onFailAt : List Action → Nat → List Step
-  | [], _ => []
-  | .io _ f :: _, 0 => f
-  | .io _ _ :: rest, k + 1 => onFailAt rest k
-  | .fail _ :: _, _ => []
-  | .mem _ :: rest, k => onFailAt rest k
-
-/-- the memory updates performed before the k-th I/O action -/
-def memBefore : List Action → Nat → List MemUpd
-  | [], _ => []
-  | .io _ _ :: _, 0 => []
-  | .io _ _ :: rest, k + 1 => memBefore rest k
-  | .fail _ :: _, _ => []
-  | .mem u :: rest, k => u :: memBefore rest k
-
-theorem runActs_fault (acts : List Action) (k n : Nat) (fs : FS) (m : Mem) (log : List Step)
-    (hk : n ≤ k) (hlt : k - n < (ioSteps acts).length) :
-    (runActs acts (.faultAt k) n fs m log).err = some .io ∧
-    (runActs acts (.faultAt k) n fs m log).dead = false ∧
-    (runActs acts (.faultAt k) n fs m log).fs = (fs.steps ((ioSteps acts).take (k - n))).steps (onFailAt acts (k - n)) ∧
-    (runActs acts (.faultAt k) n fs m log).mem = (memBefore acts (k - n)).foldl applyUpd m := by
-  induction acts generalizing n fs m log with
-  | nil => simp [ioSteps] at hlt
-  | cons a acts ih =>
-    cases a with
-    | io s f =>
-      simp only [runActs]
-      by_cases hnk : n = k
-      · subst hnk; simp [FS.steps, onFailAt, memBefore, ioSteps]
-      · simp only [hnk, if_false]
-        have h1 : k - n = (k - (n + 1)) + 1 := by omega
-        have := ih (n + 1) (fs.step s) m (s :: log) (by omega) (by simp [ioSteps] at hlt; omega)
-        rw [h1]
-        simpa [ioSteps, FS.steps, onFailAt, memBefore] using this
-    | mem u =>
-      have := ih n fs (applyUpd m u) log hk (by simpa [ioSteps] using hlt)
-      simpa [runActs, ioSteps, onFailAt, memBefore] using this
-    | fail e => simp [ioSteps] at hlt
-
-theorem run_fault (acts : List Action) (k : Nat) (fs : FS) (m : Mem) (hlt : k < (ioSteps acts).length) :
-    (run acts (.faultAt k) fs m).err = some .io ∧
-    (run acts (.faultAt k) fs m).fs = (fs.steps ((ioSteps acts).take k)).steps (onFailAt acts k) ∧
-    (run acts (.faultAt k) fs m).mem = (memBefore acts k).foldl applyUpd m := by
-  have := runActs_fault acts k 0 fs m [] (Nat.zero_le _) (by simpa using hlt)
-  simpa [run] using ⟨this.1, this.2.2.1, this.2.2.2⟩
-
-theorem onFailAt_append_left (a b : List Action) (k : Nat) (h : k < (ioSteps a).length) :
-    onFailAt (a ++ b) k = onFailAt a k := by
-  induction a generalizing k with
-  | nil => simp [ioSteps] at h
-  | cons x a ih =>
-    cases x with
-    | io s f =>
-      cases k with
-      | zero => rfl
-      | succ k => simpa [onFailAt] using ih k (by simpa [ioSteps] using h)
-    | mem u => simpa [onFailAt] using ih k (by simpa [ioSteps] using h)
-    | fail e => simp [ioSteps] at h
-
-theorem onFailAt_append_right (a b : List Action) (k : Nat) (hf : failOf a = none) :
-    onFailAt (a ++ b) ((ioSteps a).length + k) = onFailAt b k := by
-  induction a with
-  | nil => simp [ioSteps]
-  | cons x a ih =>
-    cases x with
-    | io s f =>
-      have := ih (by simpa [failOf] using hf)
-      simp only [List.cons_append, ioSteps, List.length_cons]
-      rw [show (ioSteps a).length + 1 + k = ((ioSteps a).length + k) + 1 by omega]
-      simpa [onFailAt] using this
-    | mem u => simpa [onFailAt, ioSteps] using ih (by simpa [failOf] using hf)
-    | fail e => simp [failOf] at hf
-
-theorem memBefore_append_left (a b : List Action) (k : Nat) (h : k < (ioSteps a).length) :
-    memBefore (a ++ b) k = memBefore a k := by
-  induction a generalizing k with
-  | nil => simp [ioSteps] at h
-  | cons x a ih =>
-    cases x with
-    | io s f =>
-      cases k with
-      | zero => rfl
-      | succ k => simpa [memBefore] using ih k (by simpa [ioSteps] using h)
-    | mem u => simpa [memBefore] using ih k (by simpa [ioSteps] using h)
-    | fail e => simp [ioSteps] at h
-
-theorem memBefore_append_right (a b : List Action) (k : Nat) (hf : failOf a = none) :
-    memBefore (a ++ b) ((ioSteps a).length + k) = memUpds a ++ memBefore b k := by
-  induction a with
-  | nil => simp [ioSteps, memUpds]
-  | cons x a ih =>
-    cases x with
-    | io s f =>
-      have := ih (by simpa [failOf] using hf)
-      simp only [List.cons_append, ioSteps, List.length_cons, memUpds]
-      rw [show (ioSteps a).length + 1 + k = ((ioSteps a).length + k) + 1 by omega]
-      simpa [memBefore] using this
-    | mem u => simpa [memBefore, ioSteps, memUpds] using ih (by simpa [failOf] using hf)
-    | fail e => simp [failOf] at hf
-
 /-! ### the error paths of the log phase of a commit -/
 
 theorem appendA_nocut_eq (cfg : Cfg) (ws : WS) (r : Rec) (ho : ws.isOpen = true)
@@ -285,11 +184,11 @@ theorem failed_commit_wal {cfg : Cfg} {T : List Tx} {fs : FS} {m : Mem} {cs : Li
     intro mm hmm g hgj hgd hgw
     have hfields : mm.pm = m.pm ∧ mm.idLen = m.idLen ∧ mm.idStart = m.idStart ∧ mm.exts = m.exts ∧ mm.runs = m.runs ∧
         mm.segs = m.segs ∧ mm.proot = m.proot ∧ mm.ptop = m.ptop ∧ mm.epoch = m.epoch ∧ mm.nextTxid = m.nextTxid + 1 ∧
-        mm.walOpen = m.walOpen := by
-      rcases hmm with rfl | rfl <;> exact ⟨rfl, rfl, rfl, rfl, rfl, rfl, rfl, rfl, rfl, rfl, rfl⟩
-    obtain ⟨f1, f2, f3, f4, f5, f6, f7, f8, f9, f10, f11⟩ := hfields
+        mm.walOpen = m.walOpen ∧ mm.bm = m.bm := by
+      rcases hmm with rfl | rfl <;> exact ⟨rfl, rfl, rfl, rfl, rfl, rfl, rfl, rfl, rfl, rfl, rfl, rfl⟩
+    obtain ⟨f1, f2, f3, f4, f5, f6, f7, f8, f9, f10, f11, f12⟩ := hfields
     exact { pj := hgj, wal := hgw, log := h.log, pager := by rw [hgd]; exact h.pager, store := by rw [hgd]; exact h.store,
-            full := by rw [hgd]; exact h.full, mpm := by rw [f1, hgd]; exact h.mpm, mlen := by rw [f2]; exact h.mlen,
+            full := by rw [hgd]; exact h.full, mpm := by rw [f1, hgd]; exact h.mpm, mbm := by rw [f12, hgd]; exact h.mbm, mlen := by rw [f2]; exact h.mlen,
             mstart := by rw [f3, hgd]; exact h.mstart, mexts := by rw [f4]; exact h.mexts, mruns := by rw [f5]; exact h.mruns,
             msegs := by rw [f6, hgd]; exact h.msegs, mroot := by rw [f7]; exact h.mroot, mptop := by rw [f8]; exact h.mptop,
             mepoch := by rw [f9]; exact h.mepoch, mtxid := by rw [f10]; have := h.mtxid; omega,
